@@ -107,9 +107,12 @@ DiffExit(P, hdr, tg) ==
   IF hdr = "unreadable" \/ LoadFails(P) \/ SomeBad(P) THEN 2
   ELSE IF \E p \in P : Generates(src[p]) /\ disk[<<p, "std">>] # Fresh(src[p], hdr, tg) THEN 1
   ELSE 0
+\* per package: what diff finds there (recorded so that replay samples can be stratified by it)
+DiffFinds(p, hdr, tg) == IF ~Generates(src[p]) THEN src[p]
+                         ELSE IF disk[<<p, "std">>] = Fresh(src[p], hdr, tg) THEN "same" ELSE "differs"
 Diff(P, hdr, tg) ==
   /\ UNCHANGED <<src, disk>>
-  /\ Rec("diff", [pkgs |-> P, header |-> hdr, tags |-> tg], DiffExit(P, hdr, tg))
+  /\ Rec("diff", [pkgs |-> P, header |-> hdr, tags |-> tg, finds |-> [p \in P |-> DiffFinds(p, hdr, tg)]], DiffExit(P, hdr, tg))
 CheckExit(P) == IF LoadFails(P) \/ SomeBad(P) THEN 1 ELSE 0
 Check(P) == /\ UNCHANGED <<src, disk>>
             /\ Rec("check", [pkgs |-> P], CheckExit(P))
